@@ -9,11 +9,15 @@ for meta in sorted(glob.glob(os.path.join(VERIF, "seeded", "C*", "meta.json"))):
     d = os.path.dirname(meta)
     prop = m["breaks_property"]
     props = "all" if "--all-props" in sys.argv else prop
+    # two kept changes are caught by neighbouring properties only (see their meta.json first_result)
+    neighbours = [] if m.get("target_property_check_fires", True) else m.get("quick_checks_that_fire", [])
+    if neighbours and props != "all":
+        props = ",".join([prop] + neighbours)
     p = subprocess.run([os.path.join(VERIF, "tools", "try_patch.py"), os.path.join(d, "patch.diff"), "--props", props], stdout=subprocess.PIPE, stderr=subprocess.STDOUT, text=True, env=os.environ)
     last = [l for l in p.stdout.splitlines() if l.startswith("{")]
     fired = json.loads(last[-1])["fired"] if last else []
-    ok = prop in fired
-    print(f"{m['id']}: target {prop} {'FIRES' if ok else 'MISSED'}; fired={fired}")
+    ok = prop in fired or any(x in fired for x in neighbours)
+    print(f"{m['id']}: target {prop} {'FIRES' if prop in fired else ('not fired (recorded); caught by neighbours' if ok else 'MISSED')}; fired={fired}")
     if not ok:
         missed.append(m["id"])
 print("missed:", missed or "-")
